@@ -78,6 +78,25 @@ def assign_case(rng):
     for t in cells1: lines.append('a' + idx(t))
     return Case(mode='repl', stdin=gen.join(lines), meta=dict(gen='array-assign'))
 
+def field_assign_case(rng):
+    """whole-array assignment where source and target are array FIELDS (same field name in two records, elements of an
+    array of records, a field and a plain array): every element copied, bounds/type checked, independent afterwards"""
+    lo = rng.randint(-1, 1); hi = lo + rng.randint(1, 3)
+    hi2 = hi + rng.choice([0, 0, 1])
+    ty2 = rng.choice(['INTEGER', 'INTEGER', 'STRING'])
+    L = ['TYPE Row', '  DECLARE id : INTEGER', '  DECLARE v : ARRAY[%d:%d] OF INTEGER' % (lo, hi), 'ENDTYPE',
+         'TYPE Other', '  DECLARE v : ARRAY[%d:%d] OF %s' % (lo, hi2, ty2), 'ENDTYPE',
+         'DECLARE r1 : Row', 'DECLARE r2 : Row', 'DECLARE o : Other', 'DECLARE rows : ARRAY[0:2] OF Row', 'DECLARE plain : ARRAY[%d:%d] OF INTEGER' % (lo, hi), 'DECLARE k : INTEGER',
+         'FOR k <- %d TO %d' % (lo, hi), '  r1.v[k] <- 100 + k', '  r2.v[k] <- 200 + k', '  rows[0].v[k] <- 300 + k', '  rows[2].v[k] <- 500 + k', '  plain[k] <- 700 + k', 'NEXT k']
+    dump = ['FOR k <- %d TO %d' % (lo, hi), '  OUTPUT k, " ", r1.v[k], " ", r2.v[k], " ", rows[0].v[k], " ", rows[1].v[k], " ", rows[2].v[k], " ", plain[k]', 'NEXT k']
+    steps = ['r1.v <- r2.v', 'rows[0].v <- rows[2].v', 'rows[1].v <- r1.v', 'r2.v <- plain', 'plain <- rows[0].v', 'r1.v <- r1.v', 'rows[2].v <- rows[2].v']
+    rng.shuffle(steps)
+    for st in steps[:rng.randint(2, 5)]:
+        a, b = st.split(' <- ')
+        L += [st, '%s[%d] <- 9000' % (b, lo), '%s[%d] <- 8000' % (a, hi)] + dump
+    L += ['r1.v <- o.v', 'OUTPUT "after the mismatched assignment"'] + dump
+    return Case(gen.join(L), limits=dict(steps=20000), meta=dict(gen='array-field-assign', sample=False))
+
 def loop_case(rng):
     """file-mode program: the same element node is indexed with varying indices inside loops"""
     l1, u1 = rng.randint(-3, 0), rng.randint(1, 4)
@@ -102,8 +121,12 @@ def generate(tier, rng):
         cases.append(assign_case(rng))
     for _ in range(10 if tier == 'quick' else 60):
         cases.append(loop_case(rng))
+    for _ in range(12 if tier == 'quick' else 120):
+        cases.append(field_assign_case(rng))
     for _ in range(25 if tier == 'quick' else 400):
         cases.append(Case(gen.compound_loop_program(rng), limits=dict(steps=20000), meta=dict(gen='compound-in-loop', sample=False)))
+    for _ in range(25 if tier == 'quick' else 500):      # cross-feature programs (gen.rich_program): every data kind, call mode and file kind mixed
+        cases.append(Case(gen.rich_program(rng), limits=dict(steps=30000), stdin=b'typed\n', meta=dict(gen='rich', sample=False)))
     return cases
 
 def intrinsic(case, io, ia):
